@@ -71,8 +71,14 @@ class PGen:
                     self.uses_ext = True
                 else:
                     out.append({"k": "set", "var": v, "val": d.randint(0, 2, key, s, "sv")})
-                out.append({"k": "if", "var": v, "op": d.choice(["==", "<", ">"], key, s, "op"), "c": d.randint(0, 2, key, s, "c"),
-                            "then": self.block(depth + 1, (key, s, "t"), allow_user), "else": self.block(depth + 1, (key, s, "e"), allow_user) if d.chance(0.6, key, s, "he") else None})
+                st = {"k": "if", "var": v, "op": d.choice(["==", "<", ">"], key, s, "op"), "c": d.randint(0, 2, key, s, "c"),
+                      "then": self.block(depth + 1, (key, s, "t"), allow_user), "else": self.block(depth + 1, (key, s, "e"), allow_user) if d.chance(0.6, key, s, "he") else None}
+                if v != "ext" and d.chance(0.3, key, s, "elif"):
+                    # an `else if` chain on the same variable (spelt `else if`, meaning an if statement in the else branch)
+                    st["else"] = [{"k": "if", "var": v, "op": d.choice(["==", "<", ">"], key, s, "op2"), "c": d.randint(0, 2, key, s, "c2"),
+                                   "then": self.block(depth + 1, (key, s, "t2"), allow_user), "else": st["else"]}]
+                    st["else_if"] = True
+                out.append(st)
             elif k == "while":
                 v = "n%d" % depth
                 out.append({"k": "set", "var": v, "val": 0})
@@ -146,6 +152,10 @@ def render(prog):
             elif k == "if":
                 out.append(p + "if $%s %s %d" % (s["var"], s["op"], s["c"]))
                 out += stmts(s["then"], ind + 1)
+                while s.get("else_if") and s.get("else") and len(s["else"]) == 1 and s["else"][0]["k"] == "if":
+                    s = s["else"][0]
+                    out.append(p + "else if $%s %s %d" % (s["var"], s["op"], s["c"]))
+                    out += stmts(s["then"], ind + 1)
                 if s.get("else"):
                     out.append(p + "else")
                     out += stmts(s["else"], ind + 1)
@@ -392,7 +402,7 @@ class C14(Prop):
         "stub": ["the user (simulated client feeding UserIntent events)", "custom actions act0..actN (deterministic function, scheduler-chosen latency)", "event loop clock (SimLoop)", "uuid / wall clock seams"],
     }
     assumptions = ["the generated subset avoids constructs whose Colang 1.0 semantics is a heuristic (competing flows, wildcards, priorities)", "compared are decisions (bot intents, action starts with evaluated parameter, Listen) and program variables at each Listen, not the grouping of ContextUpdate events"]
-    expected_probes = ["sibling_conversation", "direct_decision_function_calls", "program_with_while", "program_with_break_or_continue", "program_with_subflow", "program_with_action_result_branch", "user_left_flow", "reasked_concurrently", "reasked_after_dynamic_flow"]
+    expected_probes = ["sibling_conversation", "direct_decision_function_calls", "program_with_while", "program_with_break_or_continue", "program_with_else_if", "program_with_subflow", "program_with_action_result_branch", "user_left_flow", "reasked_concurrently", "reasked_after_dynamic_flow"]
     ddmin_paths = [("intents",), ("program", "body"), ("program", "subflows", "*", "body")]
     quick_runs = 240
     thorough_runs = 20000
@@ -429,6 +439,8 @@ class C14(Prop):
             out.probe("program_with_subflow")
         if kinds & {"break", "continue"}:
             out.probe("program_with_break_or_continue")
+        if any(x.get("else_if") for x in _all(prog)):
+            out.probe("program_with_else_if")
         holder = {}
         ld = Draws(sc.get("lat_seed", 0))
         calls = []
